@@ -26,6 +26,10 @@ fn run_with(c: &Case, source: &SourceSpec) -> Result<(Vec<Vec<u8>>, Option<Vec<S
     let mut drv = SenderDriver::new(&c.sender)?;
     let mut o = c.obj.clone();
     o.source = source.clone();
+    // whatever the stream's cursor position and whether or not an MD5 pre-pass rewinds it
+    if c.obj.stream_start % 3 == 1 {
+        o.md5 = false;
+    }
     if c.carousel_transfers > 0 {
         o.carousel = Some(CarouselSpec::DelayMs(10));
     }
@@ -164,6 +168,7 @@ pub fn run_case(c: &Case, known: &dyn Fn(&str) -> bool) -> CaseResult {
     ));
     info.label_if(c.obj.max_transfer_count > 1, "transfers>=2");
     info.label_if(c.carousel_transfers > 0, "carousel");
+    info.label_if(c.obj.stream_start != 0 && matches!(c.source, SourceSpec::Cursor | SourceSpec::Chunked(_)), "stream handed over with its cursor not at the start");
     Ok(info)
 }
 
